@@ -121,7 +121,8 @@ def parse_assumptions(out: str) -> dict:
             mm = re.match(r"^(\S+)\s*:", line)
             if mm:
                 axioms.append(mm.group(1))
-    return {"closed": closed, "axioms": sorted(set(axioms))}
+    prims = sorted({a for a in axioms if a.startswith(("PrimInt63.", "PrimFloat.", "Uint63.", "PrimArray."))})
+    return {"closed": closed, "axioms": sorted(set(axioms) - set(prims)), "kernel_primitives": prims}
 
 
 def known_findings() -> list:
